@@ -32,6 +32,8 @@ def base_doc(rng, profile, latlon_p=0.0, sqlite_p=0.15, pickle_p=0.06, fault_kin
         backend = "pickle"
     elif r < sqlite_p + pickle_p + 0.1:
         backend = "inmem_api"
+    elif r < sqlite_p + pickle_p + 0.22 and sqlite_p > 0:
+        backend = "scan"        # a user-written BaseMap subclass with complete spatial queries
     if backend.startswith("sqlite"):
         world_kw.setdefault("labels", rng.choice(["int", "bigint"]))
         cfg_kw.setdefault("only_edges", True if rng.random() < 0.8 else None)
@@ -44,6 +46,8 @@ def base_doc(rng, profile, latlon_p=0.0, sqlite_p=0.15, pickle_p=0.06, fault_kin
     if not latlon and rng.random() < big_p:
         offset = (float(rng.randrange(10 ** 6, 10 ** 7)), float(rng.randrange(10 ** 6, 2 * 10 ** 7)))
     world = gen.gen_world(rng, unit=unit, offset=offset, **world_kw)
+    if backend == "scan":
+        world["linked"] = []       # the user-written map has no notion of linked parallel edges
     if world["shape"] == "grid" and "half_grid" not in trace_kw and rng.random() < 0.5:
         trace_kw["half_grid"] = True
     cfg = gen.gen_config(rng, world, **cfg_kw)
